@@ -57,7 +57,7 @@ META = {
 AMORT = [("shampoo", "eigen"), ("soap", "eigh"), ("soap", "qr")]
 IGNORED = [[], [0], [0, 1, 2, 3], [], [1], [0], []]
 # bfloat16 FACTORS are never used: torch.linalg.qr has no bfloat16 kernel (known finding F11)
-DTYPES = [("float64", "float64"), ("float32", "float64"), ("float64", "float32"), ("bfloat16", "float32"), ("float32", "float32"), ("float64", "float64")]
+DTYPES = [("float64", "float64"), ("float32", "float64"), ("float64", "float32"), ("bfloat16", "float32"), ("float32", "float32"), ("float16", "float32"), ("float64", "float64")]
 
 
 def _dt(name):
@@ -109,6 +109,21 @@ def gen_case(rng, idx, thorough):
         case["groups"][0]["shapes"] = case["groups"][0]["shapes"][:2] + [[5]]      # a 1-D block whose only dim is ignored (F4)
         for st in case["steps"]:
             st["present"][0] = (st["present"][0] + [True, True, True])[:len(case["groups"][0]["shapes"])]
+    # --- input classes named or plainly allowed by the quantifier (quantifier audit) ---
+    if idx % 10 == 7:                                  # twin param groups: identical hyperparameters, identical shapes
+        case["groups"] = [case["groups"][0], {"overrides": {}, "shapes": copy.deepcopy(case["groups"][0]["shapes"])}]
+        for s_, st in enumerate(case["steps"]):
+            row = st["present"][0]
+            st["present"] = [row, [not x for x in row] if s_ % 2 else list(row)]
+        case["variant"] = "twin_groups"
+    elif idx % 6 == 4:                                 # two equal-shaped parameters whose gradients alternate (same count, other pattern)
+        sh = rng.choice([[3, 4], [2, 3], [5], [2, 2, 2]])
+        case["groups"][0]["shapes"] = [sh, list(sh)] + case["groups"][0]["shapes"][2:3]
+        for s_, st in enumerate(case["steps"]):
+            st["present"][0] = ([s_ % 2 == 0, s_ % 2 == 1] + st["present"][0][2:3] + [True])[:len(case["groups"][0]["shapes"])]
+        case["variant"] = "alternating_equal_shapes"
+    case["gmode"] = ["normal", "zero_present", "tiny", "noncontiguous", "normal", "zero_present_all_once"][(idx // 2) % 6]
+    case["names"] = ["default", "default", "default", "slash_dot", "odd"][idx % 5]
     hi = 8 if thorough else 6
     T = max(rng.randint(3, hi), rng.randint(3, hi))
     steps = case["steps"][:T]
@@ -121,14 +136,41 @@ def gen_case(rng, idx, thorough):
         if s > 0 and rng.random() < 0.35:
             gi = rng.randrange(ngroups)
             eff = optrun.effective_cfg(case, gi)
-            which = rng.choice(["lr", "lr", "momentum", "wd"])
+            which = rng.choice(["lr", "lr", "momentum", "wd", "freq", "dampening", "nesterov", "beta3"])
             if which == "momentum" and eff["momentum"] == 0.0:
                 which = "lr"
+            if which == "beta3" and eff["betas"][0] == 0.0:
+                which = "wd"
             ed = [None] * ngroups
-            ed[gi] = {which: {"lr": rng.choice([0.25, 0.0625, 0.03125]), "wd": rng.choice([0.0, 0.125]), "momentum": rng.choice([0.25, 0.75])}[which]}
+            ed[gi] = {which: {"lr": rng.choice([0.25, 0.0625, 0.03125]), "wd": rng.choice([0.0, 0.125]), "momentum": rng.choice([0.25, 0.75]),
+                              "freq": rng.choice([1, 2, 3]), "dampening": rng.choice([0.0, 0.5]), "nesterov": rng.random() < 0.5,
+                              "beta3": rng.choice([0.125, 0.5])}[which]}
             st["edits"] = ed
+    if case["gmode"].startswith("zero_present"):       # a PRESENT gradient that is exactly zero (on one parameter / on every parameter) at one step
+        s_ = rng.randrange(len(steps))
+        steps[s_]["gzero"] = "all" if case["gmode"].endswith("all_once") else [0, rng.randrange(len(case["groups"][0]["shapes"]))]
+        if steps[s_]["gzero"] != "all":
+            steps[s_]["present"][0][steps[s_]["gzero"][1]] = True
     case["steps"] = steps
     return case
+
+
+def set_grads(case, params, st):
+    """optrun.set_grads + the gradient classes of the audit: present-but-zero, tiny (exact power-of-two scale), non-default memory layout."""
+    import torch
+    optrun.set_grads(case, params, st)
+    mode = case.get("gmode", "normal")
+    gz = st.get("gzero")
+    for gi, ps in enumerate(params):
+        for pi, p in enumerate(ps):
+            if p.grad is None:
+                continue
+            if gz == "all" or gz == [gi, pi]:
+                p.grad = torch.zeros_like(p.grad)
+            elif mode == "tiny":
+                p.grad = p.grad * (2.0 ** -17)
+            elif mode == "noncontiguous" and p.grad.dim() >= 2:
+                p.grad = p.grad.transpose(0, -1).contiguous().transpose(0, -1)
 
 
 def has_leafless(layout):
@@ -223,18 +265,38 @@ def snapshot(opt, params, live=None):
                 bits += [len(b)] + b
     for gi, g in enumerate(opt.param_groups):
         paths.append(f"options{gi}")
-        bits += [_fbits(g["lr"]), _fbits(g["momentum"]), _fbits(g["weight_decay"]), _fbits(g["betas"][0]), _fbits(g["beta3"]),
-                 _fbits(g["dampening"]), int(g["use_nesterov"])]
+        b = []
+        for k in sorted(k for k in g if k != "params"):          # every option a checkpoint carries: numbers as bit patterns, the rest by repr
+            v = g[k]
+            vs = list(v) if isinstance(v, (tuple, list)) else [v]
+            if all(isinstance(x, (bool, int, float)) for x in vs):
+                b += [len(vs)] + [(_fbits(x) if isinstance(x, float) else int(x)) for x in vs]
+            else:
+                raw = repr(v).encode()
+                b += [len(raw)] + [int.from_bytes(raw[i:i + 7], "big") for i in range(0, len(raw), 7)]
+        bits += [len(b)] + b
     return paths, bits
 
 
-def names_of(params):
-    """Names whose sorted order differs from the order of the group's parameters (and mixes upper/lower case)."""
-    out = []
+ODD_NAMES = ["a", "", "Z z", "0", "a.b", "\u00e9", "a/b", "00", "A", "0.0"]       # no two groups can join to the same key (no name "b", "/a", ...)
+UNUSED = "unused.param"                                                            # a model parameter the optimizer does not optimize
+
+
+def names_of(params, style="default"):
+    """Names whose sorted order differs from the order of the group's parameters (and mixes upper/lower case); style slash_dot:
+    '/' and '.' inside names; style odd: empty name, numeric-looking names, blanks, non-ASCII."""
+    out, c = [], 0
     for gi, ps in enumerate(params):
         n = len(ps)
         for pi, p in enumerate(ps):
-            out.append((f"g{gi}.{'w' if pi % 2 == 0 else 'W'}{n - 1 - pi}", p))
+            if style == "odd" and sum(len(q) for q in params) <= len(ODD_NAMES):
+                nm = ODD_NAMES[c]
+            elif style == "slash_dot":
+                nm = f"L{gi}/blk.{n - 1 - pi}/{'w' if pi % 2 == 0 else 'W'}"
+            else:
+                nm = f"g{gi}.{'w' if pi % 2 == 0 else 'W'}{n - 1 - pi}"
+            out.append((nm, p))
+            c += 1
     return out
 
 
@@ -275,12 +337,18 @@ def layout_of(opt, params):
     return lay
 
 
+def all_names(case, params):
+    """key_to_param as a training script would pass it: the optimizer's parameters and one model parameter it does not optimize."""
+    import torch
+    return names_of(params, case.get("names", "default")) + [(UNUSED, torch.nn.Parameter(torch.zeros(2)))]
+
+
 def do_load(case, sd, pk, k2p_order):
     """Fresh optimizer over copies of the parameter values pk, load sd; returns (outcome, opt, params)."""
     import torch
     ps = [[torch.nn.Parameter(t.detach().clone()) for t in g] for g in pk]
     opt = optrun.build_optimizer(case, ps, dtype=dtypes_of(case)[1])
-    nm = names_of(ps)
+    nm = all_names(case, ps)
     nm = [nm[i] for i in k2p_order]
     try:
         opt.load_distributed_state_dict(state_dict=copy.deepcopy(sd), key_to_param=iter(nm))
@@ -296,7 +364,7 @@ def cont(case, opt, params, start, T, live_out=None):
     for si in range(start, T):
         st = case["steps"][si]
         optrun.apply_edits(opt, dummy, st)
-        optrun.set_grads(case, params, st)
+        set_grads(case, params, st)
         try:
             opt.step()
         except Exception as e:  # noqa
@@ -335,22 +403,26 @@ def impl_worker(args):
         T = err[0]                                   # the history is cut before the step that raises (C13's subject)
     layout = layout_of(opt, params)
     nparams = sum(len(g) for g in params)
-    order_save = list(range(nparams))
-    order_load = list(reversed(range(nparams)))
+    order_load = list(reversed(range(nparams + 1)))          # key_to_param is handed to load in another order (incl. the unused parameter)
     # second run: a checkpoint is taken at every stop point
     params_b = optrun.build_params(case, dtype=pdt)
     opt_b = optrun.build_optimizer(case, params_b, dtype=fdt)
     dummy = [dict() for _ in params_b]
-    saverun, sds, pks = [], [], []
+    saverun, sds, pks, stopcls = [], [], [], {}
     for k in range(T + 1):
         saverun.append(snapshot(opt_b, params_b))
-        nm = names_of(params_b)
+        nm = all_names(case, params_b)
         sds.append(copy.deepcopy(opt_b.distributed_state_dict(key_to_param=iter(nm))))
+        for gi, g in enumerate(opt_b.param_groups):               # audit: where does this stop point lie in the group's schedule
+            t = int(opt_b._per_group_state_lists[gi]["step"].item()) if "step" in opt_b._per_group_state_lists[gi] else 0
+            f, st0 = g["precondition_frequency"], g["start_preconditioning_step"]
+            cls = ("never_stepped" if t == 0 else "warmup_before_start" if t < st0 else "at_refresh" if (t == st0 or t % f == 0) else "between_refreshes")
+            stopcls[cls] = stopcls.get(cls, 0) + 1
         pks.append([[p.detach().clone() for p in g] for g in params_b])
         if k < T:
             st = case["steps"][k]
             optrun.apply_edits(opt_b, dummy, st)
-            optrun.set_grads(case, params_b, st)
+            set_grads(case, params_b, st)
             opt_b.step()
     # trajectories that must equal the reference run from step 0: the run that saves at every stop point, and the reference run read
     # through the optimizer's working tensors (registered state == live state, at every step)
@@ -368,6 +440,25 @@ def impl_worker(args):
         if e2 is not None:
             diag.append(f"k={k}: resumed run raised at step {e2[0]}: {e2[1]}")
         resumed.append((k, tr))
+    # a resumed run is a run: stop it again later, save, load into another fresh optimizer, continue (chained resume)
+    chained = None
+    if T >= 2 and own_outcomes[0] == "Ok":
+        k1 = rng.randrange(0, T - 1)
+        k2 = rng.randrange(k1 + 1, T)
+        out, o2, p2 = do_load(case, sds[k1], pks[k1], order_load)
+        if out == "Ok":
+            _, e2 = cont(case, o2, p2, k1, k2)
+            if e2 is None:
+                sd2 = copy.deepcopy(o2.distributed_state_dict(key_to_param=iter(all_names(case, p2))))
+                out, o3, p3 = do_load(case, sd2, [[p.detach().clone() for p in g] for g in p2], order_load)
+                own_outcomes.append(out)
+                if out == "Ok":
+                    tr = [snapshot(o3, p3)]
+                    sn, e3 = cont(case, o3, p3, k2, T)
+                    resumed.append((k2, tr + sn))
+                    chained = (k1, k2)
+                else:
+                    diag.append(f"chained resume k1={k1} k2={k2}: loading raised {out}")
     # python-side diagnosis (the decision is C09_checkb's)
     for ti, (k, tr) in enumerate(resumed):
         label = {0: "saving run, ", 1: "registered state vs working tensors, "}.get(ti, "")
@@ -382,7 +473,7 @@ def impl_worker(args):
                 # locate the first differing tensor
                 pos, which = 0, None
                 for name in pp:
-                    n = 7 if name.startswith("options") else bb[pos] + 1
+                    n = bb[pos] + 1
                     if bb[pos:pos + n] != rb[pos:pos + n]:
                         which = name
                         break
@@ -411,10 +502,27 @@ def impl_worker(args):
             sd = copy.deepcopy(sds[kstar])
             del sd["state"][n][k]
             attempt("MDelKey", sd, {"deleted": [n, k], "key_kind": kd})
+    blocks_of = {}
+    for n, k in allkeys:
+        pth = json.loads(k)
+        if pth != ["step"]:
+            blocks_of.setdefault((n, pth[0]), []).append(k)
+    if blocks_of:                                       # every entry of one block
+        (n, b), ks = rng.choice(sorted(blocks_of.items()))
+        sd = copy.deepcopy(sds[kstar])
+        for k in ks:
+            del sd["state"][n][k]
+        attempt("MDelKey", sd, {"deleted": [n, b], "key_kind": "block"})
     sd = copy.deepcopy(sds[kstar])
     first = next(iter(sd["state"]))
     sd["state"]["ghost.param"] = copy.deepcopy(sd["state"][first])
-    attempt("MUnknownParam", sd)
+    attempt("MUnknownParam", sd, {"unknown": "ghost.param"})
+    sd = copy.deepcopy(sds[kstar])                      # a parameter key_to_param knows but the optimizer holds no state for
+    sd["state"][UNUSED] = copy.deepcopy(sd["state"][first])
+    attempt("MUnknownParam", sd, {"stateless": UNUSED})
+    sd = copy.deepcopy(sds[kstar])                      # one group too many
+    sd["param_groups"]["extra/group"] = copy.deepcopy(next(iter(sd["param_groups"].values())))
+    attempt("MGroupDrop", sd, {"added": "extra/group"})
     sd = copy.deepcopy(sds[kstar])
     gk = rng.choice(list(sd["param_groups"].keys()))
     del sd["param_groups"][gk]
@@ -431,11 +539,20 @@ def impl_worker(args):
         sd = copy.deepcopy(sds[kstar])
         del sd["state"][rng.choice(list(sd["state"].keys()))]
         attempt("TParamRemoved", sd)
-    nm = [n for n, _ in names_of(params)]
+    nm = [n for n, _ in all_names(case, params)]
+    audit = {"stop_points": stopcls, "chained": chained,
+             "all_absent_steps": sum(1 for st in case["steps"][:T] if not any(any(r) for r in st["present"])),
+             "group_never_stepped_while_other_did": sum(1 for gi in range(len(params)) if not any(any(st["present"][gi]) for st in case["steps"][:T])
+                                                         and any(any(any(r) for r in st["present"]) for st in case["steps"][:T])),
+             "param_never_has_gradient": sum(1 for gi, ps in enumerate(params) for pi in range(len(ps)) if not any(st["present"][gi][pi] for st in case["steps"][:T])),
+             "scalar_or_single_element_params": sum(1 for g in case["groups"] for sh in g["shapes"] if math.prod(sh) == 1),
+             "edits": {k: sum(1 for st in case["steps"][:T] for e in (st.get("edits") or []) if e and k in e) for k in
+                       ("lr", "momentum", "wd", "freq", "dampening", "nesterov", "beta3")},
+             "zero_present_steps": sum(1 for st in case["steps"][:T] if st.get("gzero"))}
     return {"T": T, "cut": err, "layout": layout, "names": nm, "order_load": order_load, "ref": [b for _, b in ref],
             "resumed": [(k, [b for _, b in tr]) for k, tr in resumed], "own_outcomes": own_outcomes, "own_state": own_state,
             "own_groups": own_groups, "keys_by_k_same": keys_by_k_same, "mal": mal, "diag": diag,
-            "nlive": nlive, "dtypes": case.get("dtypes"),
+            "nlive": nlive, "dtypes": case.get("dtypes"), "audit": audit,
             "nontrivial_k": sum(1 for k in range(1, T) if ref[k][1] != ref[0][1] and ref[T][1] != ref[k][1]),
             "npaths": len(ref[0][0])}
 
@@ -544,7 +661,7 @@ def classify(case, res, item):
     """Stable signatures of the known findings, from the failing input and the kind of failure."""
     if item[0] == "own" and item[1] == "KeyError" and has_leafless(res["layout"]):
         return "C09:own-checkpoint-keyerror-leafless-block"
-    if item[0] == "mal" and item[1]["outcome"] == "KeyError" and res["own_outcomes"][-1] == "KeyError" and has_leafless(res["layout"]):
+    if item[0] == "mal" and item[1]["outcome"] == "KeyError" and res["own_outcomes"][res["T"]] == "KeyError" and has_leafless(res["layout"]):
         return "C09:own-checkpoint-keyerror-leafless-block"     # the unmodified checkpoint does not load either: same defect
     if item[0] == "mal" and item[1]["kind"] == "MDelKey" and item[1]["outcome"] == "Ok" and item[1]["what"]["key_kind"] == "inner":
         return "C09:missing-inner-entry-accepted"
@@ -577,6 +694,11 @@ def run(ck: Check) -> None:
             "blocks_without_kronecker_factor": 0, "cases_with_such_blocks": 0, "edits": 0, "absent_gradients": 0, "histories_cut_by_step_error": 0,
             "malformed": {}, "own_loads": 0, "checkpoints_with_same_keys_at_every_k": 0}
     evaluations = nontrivial = ctor_err = 0
+    qa = {}
+
+    def q(k, n=1):
+        if n:
+            qa[k] = qa.get(k, 0) + int(n)
     bad_prop, bad_tie = [], []
     for i, (case, res) in enumerate(zip(cases, results)):
         if "error" in res:
@@ -590,6 +712,46 @@ def run(ck: Check) -> None:
         bump("dtypes(param,factors)", "/".join(case.get("dtypes", ["float64", "float64"])))
         bump("kind_x_dtypes", f"{c0['kind']}/{c0['amort']} " + "/".join(case.get("dtypes", ["float64", "float64"])))
         hist["live_tensors_checked"] += res["nlive"] * (res["T"] + 1)
+        # ---- quantifier audit: measured number of generated cases (or stop points / loads) per input class
+        a = res["audit"]
+        q("dtype pairing " + "/".join(case.get("dtypes", ["float64", "float64"])) + f" x {c0['kind']}/{c0['amort']}")
+        q("stop point k=0 (never-stepped optimizer)")
+        q("stop point k=T")
+        q("stop points 0<k<T", max(0, res["T"] - 1))
+        for k_, n_ in a["stop_points"].items():
+            q(f"(stop point, group) {k_}", n_)
+        q("chained resume (resume, stop again, save, load, continue)", a["chained"] is not None)
+        q("grafting " + str(c0["graft"]))
+        q("momentum>0", c0["momentum"] != 0.0)
+        q("momentum>0 with nesterov", c0["momentum"] != 0.0 and c0.get("nesterov", False))
+        q("momentum>0 with dampening>0", c0["momentum"] != 0.0 and c0.get("dampening", 0.0) != 0.0)
+        q("filtering beta1>0", c0["betas"][0] != 0.0)
+        q("filtering beta3!=beta1", c0["betas"][0] != 0.0 and c0.get("beta3", -1.0) not in (-1.0, c0["betas"][0]))
+        q("weight decay>0 coupled", c0.get("wd", 0.0) != 0.0 and not c0.get("decoupled", True))
+        q("weight decay>0 decoupled", c0.get("wd", 0.0) != 0.0 and c0.get("decoupled", True))
+        q("two param groups", len(case["groups"]) == 2)
+        q("two param groups with overridden options", len(case["groups"]) == 2 and bool(case["groups"][1].get("overrides")))
+        q("twin param groups (identical hyperparameters and shapes)", case.get("variant") == "twin_groups")
+        q("two equal-shaped parameters with alternating gradients", case.get("variant") == "alternating_equal_shapes")
+        q("blocked parameter (>1 block)", any(v > 1 for g in res["layout"] for v in [sum(1 for b in g["blocks"] if b["owner"] == o) for o in g["pids"]]))
+        q("block without any Kronecker factor", has_leafless(res["layout"]))
+        q("ignored_dims=" + str(c0["ignored"]))
+        q("inv_root_override != 0", c0.get("override", 0) != 0)
+        q("order-0 / single-element parameter", a["scalar_or_single_element_params"] > 0)
+        q("step with every gradient absent (no-op step)", a["all_absent_steps"] > 0)
+        q("group that never steps while another does", a["group_never_stepped_while_other_did"] > 0)
+        q("parameter that never has a gradient", a["param_never_has_gradient"] > 0)
+        q("present gradient exactly zero (one parameter)", case.get("gmode") == "zero_present" and a["zero_present_steps"] > 0)
+        q("present gradients exactly zero (every parameter, one step)", case.get("gmode") == "zero_present_all_once" and a["zero_present_steps"] > 0)
+        q("tiny gradients (x 2^-17)", case.get("gmode") == "tiny")
+        q("gradients with non-default memory layout", case.get("gmode") == "noncontiguous")
+        for k_, n_ in a["edits"].items():
+            q(f"option edit between steps: {k_}", n_)
+        q("parameter names: " + case.get("names", "default"))
+        q("key_to_param with a parameter the optimizer does not hold + permuted order on load")
+        q("history cut by a raising step", res["cut"] is not None)
+        for m in res["mal"]:
+            q("malformed: " + m["kind"] + (" " + (m["what"].get("key_kind") or next(iter(m["what"]))) if m.get("what") else ""))
         bump("graft", c0["graft"])
         bump("groups", len(case["groups"]))
         bump("ignored", c0["ignored"])
@@ -673,6 +835,19 @@ def run(ck: Check) -> None:
         "cases_failing_the_property": len(bad_prop), "cases_with_broken_tie": len(bad_tie),
         "tensors_per_snapshot_max": max([results[i]["npaths"] for i in good] or [0]), "exhaustive": False,
     })
+    ck.coverage["quantifier_audit"] = dict(sorted(qa.items()))
+    ck.coverage["not_exercised"] = {
+        "DDP / DTensor state layouts (rank_r-block_i names, DTensor leaves)": "covered by the theorems (both naming schemes) and by C06's simulator for the step; a DTensor checkpoint "
+            "needs torch.distributed.checkpoint and real process groups - not available to this harness",
+        "bfloat16 / float16 FACTORS (preconditioner_dtype)": "platform limit: no bf16 QR kernel (known finding F11), eigh retries in float64; parameter dtypes bf16/f16/f32/f64 are exercised",
+        "parameter names that make two group keys collide through '/' ({'a','b/c'} vs {'a/b','c'})": "genuine discrepancy C09:group-key-collision-slash-in-names reported to the coordinator "
+            "(own checkpoint raises ValueError: count mismatch); C09_group_keys_unique assumes no '/'; names WITH '/' that do not collide are exercised (slash_dot, odd)",
+        "faulty continuations (failure counters)": "not part of the saved state; the property's quantifier has no fault axis (C13)",
+        "checkpoints whose tensors have another shape / dtype": "outside the property (copy_ raises RuntimeError / casts)",
+        "non-default flags of load/save (save_param_groups=False, enable_missing_key_check=False)": "the property is about the default protocol",
+        "torch.compile'd step (PT2)": "C18",
+        "values overflowing the storage dtype (inf/nan state)": "histories are cut at a raising step; NaN/inf bit patterns would still be compared exactly, but the generator does not aim at them",
+    }
     ck.assumptions += ["serial Distributor layout, CPU, one thread; dtype pairings as listed under distribution (no bfloat16 factors: known finding F11)",
                        "histories are cut before a step that raises (failure tolerance / non-finite factors are C13's subject)",
                        "fault-free continuations: failure counters are not part of the saved state"]
